@@ -238,7 +238,7 @@ theorem inv_unlist (w : MW) (h : InvCore w) (x s : Nat) (xe : SigE) (gc gs : Int
       { xe with mx := { xe.mx with groups := xe.mx.groups.set g.toNat (sDel (xe.mx.groups.getD g.toNat []) s), groupIds := xe.mx.groupIds.set s (ids.filter (fun i => i ≠ g)) } }
       gc gs hx hk ⟨rfl, rfl, rfl, rfl, rfl⟩ hmW (by rw [hgW, if_pos rfl])
       (fun i hi => by rw [hgW, if_neg hi])
-    refine ⟨⟨by simp [hxo.shape.1], hxo.shape.2.1, hxo.shape.2.2⟩, ?_, ?_, ?_, ?_, ?_, ?_, ?_, ?_, hxo.namesNodup, ?_⟩
+    refine ⟨⟨by simp [hxo.shape.1], hxo.shape.2.1, hxo.shape.2.2⟩, ?_, ?_, ?_, ?_, ?_, ?_, ?_, ?_, hxo.namesNodup, ?_, hxo.sigsNodup⟩
     · intro g' hg'
       obtain ⟨j, hj, rfl, hjm⟩ := hidx g' hg'
       rw [hgeoW]
